@@ -572,9 +572,15 @@ pub fn run(ctx: &mut Ctx) {
             let (mut is2, _n2) = new_iset();
             let mut st = build_state(&quick.init);
             std::thread::sleep(std::time::Duration::from_millis(300));
+            let t1 = std::time::Instant::now();
             let r = guarded(|| {
                 let _ = PushInterpreter::run(&mut st, &mut is2);
             });
+            if t1.elapsed().as_millis() > 60 {
+                // a starved machine: the run itself came near the limit, the comparison says nothing
+                ctx.rec.count("aged_state_skipped_slow_run", 1);
+                continue;
+            }
             let old = r.map(|_| Snap::of(&st).digest());
             ctx.rec.count("runs", 2);
             ctx.rec.count("aged_state_comparisons", 1);
